@@ -46,7 +46,7 @@ def run(prop, tier, replay=None):
             for k in range(extra_h):     # 7-8 digit hour values: the overflow / clamp band
                 v = str(rnd.randint(1000000, 99999999))
                 cases.append(dict(fam="timeout", shape=dict(n=len(v), digits=True, unit="H", signed=False), proto="grpc", value=v))
-            reps = 1 if tier == "quick" else 5
+            reps = 1 if tier == "quick" else 12
             for s in scheds:
                 for k in range(reps):
                     c = dict(s)
